@@ -141,19 +141,42 @@ impl TransportReader {
         &mut self,
         master_address: Option<EndpointAddress>,
     ) -> RequestGuard<'_> {
-        if let Some(TransportRequest::Request(info, _)) = self.peek_request() {
-            if let Some(required_master_addr) = master_address {
-                if info.addr.link != required_master_addr {
+        // Nothing received from another master is processed or answered, and a broadcast
+        // is never answered: this also holds for fragments that cannot be parsed or
+        // validated as a request, which are otherwise answered with an error response.
+        let discard = match self.peek_fragment_info() {
+            None => false,
+            Some(info) => {
+                let wrong_master =
+                    master_address.is_some_and(|required| info.addr.link != required);
+                if wrong_master {
                     tracing::warn!(
                         "Discarding ASDU from master address: {} (configured address == {})",
                         info.addr.link.raw_value(),
-                        required_master_addr.raw_value()
+                        master_address.map(|x| x.raw_value()).unwrap_or_default()
                     );
-                    self.pop();
+                    true
+                } else if info.broadcast.is_some()
+                    && matches!(self.peek_request(), Some(TransportRequest::Error(_, _)))
+                {
+                    tracing::warn!("Discarding malformed broadcast ASDU");
+                    true
+                } else {
+                    false
                 }
             }
+        };
+        if discard {
+            self.pop();
         }
         RequestGuard::new(self)
+    }
+
+    fn peek_fragment_info(&self) -> Option<FragmentInfo> {
+        match self.inner.peek()? {
+            TransportData::Fragment(fragment) => Some(fragment.info),
+            TransportData::LinkLayerMessage(_) => None,
+        }
     }
 
     fn peek_request(&mut self) -> Option<TransportRequest<'_>> {
